@@ -305,7 +305,7 @@ def _e2e_case(arg):
 def run(ctx):
     from vf.props.c05 import PRESETS
 
-    structural(ctx)
+    ctx.guarded("structural", structural, ctx)
     jobs = [(p, m, ctx.seed) for p in PRESETS for m in E2E_MOLS]
     jobs.sort(key=lambda j: -(PRESETS.index(j[0]) in (5, 16, 15, 4)) * 10 - len(E2E_MOLS[j[1]][0]))
     for res in lattice.pmap_unordered(_e2e_case, jobs, ctx.workers):
